@@ -3,6 +3,7 @@ package main
 // Per-instruction translation.
 
 import (
+	"sort"
 	"fmt"
 	"go/token"
 	"go/types"
@@ -177,7 +178,7 @@ func (t *fnTrans) instr(in ssa.Instruction) {
 			if d.Block().Dominates(t.blk) {
 				t.call(d.Common(), nil, d.Pos())
 			} else if reaches(d.Block(), t.blk, t) {
-				t.errorf("conditional defer at %s is outside the supported subset", t.posStr(d.Pos()))
+				t.condDefer(d)
 			}
 		}
 	case *ssa.Go:
@@ -202,6 +203,43 @@ func (t *fnTrans) instr(in ssa.Instruction) {
 		t.errorf("unsupported instruction %T at %s", in, t.posStr(in.Pos()))
 		if v, ok := in.(ssa.Value); ok {
 			t.setVal(v, Val{T: t.freshVal("unsup", v.Type())})
+		}
+	}
+}
+
+// condDefer runs a defer statement that does not dominate the return: the call happens exactly when the block of the defer statement
+// was reached on this path (its reach predicate; every block is visited at most once in the cut control-flow graph, so a defer statement
+// inside a loop stays outside the subset). Everything the call obliges or assumes is guarded by that predicate and the state after it is
+// the state before it on the paths that skipped the defer statement.
+func (t *fnTrans) condDefer(d *ssa.Defer) {
+	for _, li := range t.loops {
+		if li.body[d.Block().Index] {
+			t.errorf("defer inside a loop at %s is outside the supported subset", t.posStr(d.Pos()))
+			return
+		}
+	}
+	g := t.reach[d.Block().Index]
+	if g == "" || t.dguard != "" {
+		t.errorf("conditional defer at %s is outside the supported subset", t.posStr(d.Pos()))
+		return
+	}
+	pre := &State{m: map[string]Term{}}
+	for k, v := range t.cur.m {
+		pre.m[k] = v
+	}
+	t.dguard = g
+	t.call(d.Common(), nil, d.Pos())
+	t.dguard = ""
+	var ks []string
+	for k := range t.cur.m {
+		ks = append(ks, k)
+	}
+	sort.Strings(ks)
+	for _, k := range ks {
+		v := t.cur.m[k]
+		old := t.get(pre, k)
+		if old != v {
+			t.cur.m[k] = fmt.Sprintf("(ite %s %s %s)", g, v, old)
 		}
 	}
 }
@@ -374,6 +412,12 @@ func (t *fnTrans) indexAddr(in *ssa.IndexAddr) {
 func (t *fnTrans) unop(in *ssa.UnOp) {
 	switch in.Op {
 	case token.MUL:
+		if g, ok := in.X.(*ssa.Global); ok && g.Name() == "init$guard" && t.fn.Synthetic == "package initializer" {
+			// a contract on a package initializer speaks about the one execution that runs the `var x = ...` initializers
+			// (the guard is set by that execution; the skip path of a second call is not a behaviour of the program)
+			t.setVal(in, Val{T: "false"})
+			return
+		}
 		p := t.pathOf(in.X)
 		t.nilCheck(p, in.Pos(), "load")
 		if t.eng.lockDiscReads {
@@ -965,6 +1009,11 @@ func (t *fnTrans) selectInstr(in *ssa.Select) {
 
 func (t *fnTrans) ret(in *ssa.Return) {
 	if t.fc == nil {
+		return
+	}
+	if t.fc.NoReturn {
+		// never returns: the only obligation at a return instruction is that it is unreachable (callers assume `false` after the call)
+		t.oblige("ensures", "does-not-return", "noreturn: no return instruction is reachable", "false", in.Pos())
 		return
 	}
 	t.cover("return")
